@@ -391,10 +391,10 @@ def r4_delivery(a, tier):
         with_attr = Stub('tatsu.objectmodel.node.Node', parseinfo=None)
         plain = 'text'
         for label, node in (('node with set_parseinfo()', with_method), ('node with a parseinfo attribute', with_attr), ('a plain string', plain)):
-            me = Stub(ENGINE, make_parseinfo=Hook(lambda name, pos: pi))
+            me = Stub(ENGINE, make_parseinfo=Hook(lambda *x, **k: pi))
             it = ModelInterp(a, {'hasattr': Hook(lambda o, n: isinstance(o, Stub) and n in o._attrs)})
             try:
-                it.call_bound(Bound(me, fn), [node, 'rule', 3], {})
+                it.call_bound(Bound(me, fn), [node, 'rule', 3][:len(fn.node.args.args) - 1], {})
             except Unsupported as e:
                 raise AnalysisError(f'C12.R4: cannot interpret set_parseinfo: {e}') from e
             if node is with_method:
